@@ -543,6 +543,12 @@ def setups_for(kind, tier, rng):
                 ntypes = min(n, 3)
                 tm = [round_dec(rng.uniform(1.0, 40.0), 5) for _ in range(ntypes)]
                 types = [1 + (i % ntypes) for i in range(n)]
+                if (si + ti) % 4 == 0 or (n == 2 and ti == 0):
+                    # the data file declares a type no atom uses, below a used one: the mass of an atom is the
+                    # Masses row of its type id, not of the rank of its type among the types present
+                    hole = 1 + (si + ti) % ntypes
+                    tm.insert(hole - 1, round_dec(rng.uniform(50.0, 90.0), 5))
+                    types = [t + 1 if t >= hole else t for t in types]
                 rng.shuffle(types)
                 s.update(type_masses=tm, types=types, masses=[tm[t - 1] for t in types],
                          names=[f"a{i}" for i in range(n)], file_order=rng.sample(range(1, n + 1), n))
@@ -1611,6 +1617,15 @@ def _run(ctx, runner, root):
             except Exception as e:  # noqa: BLE001
                 crashed(f"construction of the {kind} engine", e, {"engine": kind, "setup": setup})
                 continue
+            if kind in ("lammps", "turtle", "gromacs"):
+                # the masses the engine regenerates velocities with are the ones its input declares, atom by atom
+                em = kit.engine_masses(eng, setup)
+                if [float(x) for x in em] != [float(x) for x in setup["masses"]]:
+                    oracle_fail.setdefault(f"the engine built from the input holds per-atom masses {em} but the input declares {setup['masses']}"
+                                           + (f" (atom types {setup['types']}, Masses table {setup['type_masses']})" if kind == "lammps" else "")
+                                           + ": velocities are drawn with sqrt(kT/m) of the wrong mass, the temperature of the regenerated velocities is not the requested one",
+                                           {"engine": kind, "setup": setup})
+                ctx.dist(f"{kind}/masses read back" + ("/unused atom type declared" if kind == "lammps" and len(setup["type_masses"]) > len(set(setup["types"])) else ""))
             n = len(setup["names"])
             T = setup["T"]
             kbu = qs(fr(setup.get("kb", 0.0)))
